@@ -55,6 +55,35 @@ def ref_bfs(n, edges, start, direction=None):
     dist.pop(start)
     return dist
 
+def install_networkx(I):
+    """networkx.Graph as a recorder of nodes/edges, and the graph algorithms molli might call on it, computed on the (concrete) graph:
+    bridges(G) yields each bridge once as (u, v) with u added to the graph before v (networkx's documented iteration order is the DFS
+    order; only 'each bridge once, as a 2-tuple of its end nodes in some order' is assumed by the obligations)."""
+    obj = I.builtins["object"]
+    G = ClassV("Graph", builtin=True, bases=[obj])
+    G.compute_mro()
+    G.ns["__pyvc_new__"] = lambda i, c, a, k: Obj(G, {"nodes": [], "edges": []}, tag="nxgraph")
+    G.ns["add_node"] = Builtin("add_node", lambda i, a, k: a[0].fields["nodes"].append((a[1], k)))
+    G.ns["add_edge"] = Builtin("add_edge", lambda i, a, k: a[0].fields["edges"].append((a[1], a[2], k)))
+    I.ext_models["networkx.Graph"] = G
+
+    def comp_bridges(g):
+        nodes = [n for n, _ in g.fields["nodes"]]
+        idx = lambda x: next(j for j, n in enumerate(nodes) if n is x)
+        es = [(idx(u), idx(v)) for u, v, _ in g.fields["edges"]]
+        out = []
+        for k_, (p, q) in enumerate(es):
+            rest = es[:k_] + es[k_ + 1:]
+            if (p, q) in rest or (q, p) in rest:
+                continue
+            if q not in ref_bfs(len(nodes), rest, p):
+                out.append((nodes[min(p, q)], nodes[max(p, q)]))
+        return out
+    I.ext_models["networkx.bridges"] = Builtin("nx.bridges", lambda i, a, k: IterV(iter(comp_bridges(a[0]))), "networkx.bridges (assumed): each bridge once")
+    I.ext_models["networkx.has_bridges"] = Builtin("nx.has_bridges", lambda i, a, k: bool(comp_bridges(a[0])))
+    return G
+
+
 
 @P.unit(f"{CON}.yield_bfsd", name="BFS on every graph with 4 atoms: component, once each, non-decreasing true distances",
         functions=[f"{CON}.yield_bfsd", f"{CON}.yield_bfs", f"{CON}.connected_atoms", f"{CON}.bonds_with_atom"])
@@ -87,9 +116,9 @@ NAMED = {
     "ring5": (5, ((0, 1), (1, 2), (2, 3), (3, 4), (4, 0))),
     "ring6": (6, ((0, 1), (1, 2), (2, 3), (3, 4), (4, 5), (5, 0))),
     "ring6+chord+tail": (7, ((0, 1), (1, 2), (2, 3), (3, 4), (4, 5), (5, 0), (1, 4), (2, 6))),
-    "tree-depth3": (8, ((0, 1), (0, 2), (1, 3), (1, 4), (2, 5), (3, 6), (5, 7))),
+    "tree-depth3": (8, ((0, 1), (2, 0), (1, 3), (4, 1), (2, 5), (6, 3), (5, 7))),          # some bonds stored with the later atom first
     "fused-5-4": (7, ((0, 1), (1, 2), (2, 3), (3, 4), (4, 0), (3, 5), (5, 6), (6, 4))),
-    "spiro+path": (8, ((0, 1), (1, 2), (2, 0), (0, 3), (3, 4), (4, 0), (4, 5), (5, 6), (6, 7))),
+    "spiro+path": (8, ((0, 1), (1, 2), (2, 0), (0, 3), (3, 4), (4, 0), (5, 4), (5, 6), (7, 6))),
 }
 
 
@@ -97,6 +126,7 @@ NAMED = {
         functions=[f"{CON}.yield_bfsd", f"{CON}.yield_bfs", f"{CON}.is_bond_in_ring"])
 def _bfs_named(V):
     I, st = V.I, V.st
+    install_networkx(I)
     gname = V.choose(sorted(NAMED), "graph")
     n, edges = NAMED[gname]
     edges = list(edges)
@@ -145,6 +175,7 @@ def _bfs_named(V):
 @P.unit(f"{CON}.is_bond_in_ring", name="is_bond_in_ring on every graph with 4 atoms: in a ring iff not a bridge")
 def _ring(V):
     I, st = V.I, V.st
+    install_networkx(I)
     m, edges = graph(V)
     if not edges:
         return
@@ -175,7 +206,10 @@ def _adjacency(V):
         V.assume(b.fields["btype"].z != 99)      # FractionalOrder reads f_order: covered by the f_order clause below
     atoms, bonds = m.fields["_atoms"].items, m.fields["_bonds"].items
     j = V.choose([0, 1, 2, 3], "atom")
-    a = atoms[j]
+    # the atom may be named by the Atom object or by its index (AtomLike): every query must resolve it the same way
+    by = V.choose(["atom", "index"], "atom-given-as")
+    a = atoms[j] if by == "atom" else j
+    V.witness(lambda ev: {"op": "adjacency", "by": by, "signature": "adjacency"})
     V.cover()
     mine = [b for b, (p, q) in zip(bonds, shape) if j in (p, q)]
     got = list(I.iterate(I.call(I.getattr_(m, "bonds_with_atom"), [a], {})))
@@ -222,12 +256,7 @@ def _matching(V):
     ma, pa = mol.fields["_atoms"].items, pat.fields["_atoms"].items
     calls = []
     obj = I.builtins["object"]
-    G = ClassV("Graph", builtin=True, bases=[obj])
-    G.compute_mro()
-    G.ns["__pyvc_new__"] = lambda i, c, a, k: Obj(G, {"nodes": [], "edges": []}, tag="nxgraph")
-    G.ns["add_node"] = Builtin("add_node", lambda i, a, k: a[0].fields["nodes"].append((a[1], k)))
-    G.ns["add_edge"] = Builtin("add_edge", lambda i, a, k: a[0].fields["edges"].append((a[1], a[2], k)))
-    I.ext_models["networkx.Graph"] = G
+    G = install_networkx(I)
     # VF2 reports each mapping in the order in which it assigned the nodes -- not necessarily the order of the pattern's atoms
     isos = [DictV([(ma[1], pa[0]), (ma[2], pa[1])]), DictV([(ma[1], pa[1]), (ma[2], pa[0])])]
 
